@@ -86,8 +86,14 @@ struct Obj {
   std::vector<CellInfo> cells;
 };
 
-struct OpPlan { int obj; long value; };
-struct ThreadPlan { bool park; std::vector<OpPlan> ops; };
+struct OpPlan { int obj; long value; int churn = -1; };  // churn >= 0: a private instance churn round instead of a count
+// private instance churn: a worker constructs its own counter, checks it starts from zero / "no sample",
+// contributes, checks the exact value (nobody else knows the object, so exactness holds at all times),
+// optionally lets a helper thread contribute and joins it, destroys the counter. Several workers do this
+// at the same time: one thread's destructor overlaps another thread's constructor and first contributions
+// of an independent object that merely shares the compact storage (instance id / column recycling).
+struct ChurnPlan { Kind kind; std::vector<long> values; bool helper; long helper_value; };
+struct ThreadPlan { bool park; std::vector<OpPlan> ops; std::vector<ChurnPlan> churn; };
 struct DoneRec { int obj; long value; dsched::Stamp stamp; };
 
 struct World {
@@ -107,6 +113,12 @@ struct World {
   uint64_t structural = 0, recycled = 0, thread_gens = 0;
   bool id_reused = false;
   std::vector<int> ids_seen_a;  // thread ids ever seen in this case
+  // private instance churn bookkeeping (labels / NT only)
+  int churn_alive = 0;            // private objects currently alive
+  int churn_dtor_in_flight = 0;   // destructors of private objects currently running
+  uint64_t churn_dtor_epoch = 0;  // bumped when such a destructor begins or ends
+  uint64_t churn_rounds = 0, churn_concurrent = 0, churn_ctor_overlaps_dtor = 0, churn_helpers = 0;
+  int helper_budget = 6;          // dsched allows 24 threads per case
 };
 World* W = nullptr;
 
@@ -425,12 +437,135 @@ void thread_exit_bookkeeping() {
   }
 }
 
+// ---------------------------------------------------------------------------------------------
+// private instance churn
+struct PrivateObj {
+  Kind kind;
+  std::unique_ptr<babylon::ConcurrentAdder> adder;
+  std::unique_ptr<babylon::ConcurrentSummer> summer;
+  std::unique_ptr<babylon::ConcurrentMaxer> maxer;
+  std::unique_ptr<babylon::ConcurrentMiner> miner;
+  std::unique_ptr<Cetl> cetl;
+  long sum = 0;
+  unsigned long num = 0;
+  bool has = false;
+  long ext = 0;
+  void add(long v) {
+    switch (kind) {
+      case K_ADDER: *adder << v; break;
+      case K_SUMMER: *summer << v; break;
+      case K_MAXER: *maxer << v; break;
+      case K_MINER: *miner << v; break;
+      case K_CETL: cetl->local().count += (uint64_t)v; break;
+      default: break;
+    }
+  }
+  void model(long v) {
+    sum += v;
+    num += 1;
+    if (kind == K_MAXER) { if (!has || v > ext) ext = v; }
+    if (kind == K_MINER) { if (!has || v < ext) ext = v; }
+    has = true;
+  }
+  void check(const char* when, int thread) {
+    switch (kind) {
+      case K_ADDER: {
+        long v = adder->value();
+        if (v != sum) dsched::fail("private-exact", "thread %d, private adder %s: value()=%ld, exact total %ld", thread, when, v, sum);
+        break;
+      }
+      case K_SUMMER: {
+        auto s = summer->value();
+        if ((long)s.sum != sum || s.num != num)
+          dsched::fail("private-exact", "thread %d, private summer %s: value()={%ld,%lu}, exact {%ld,%lu}", thread, when, (long)s.sum, (unsigned long)s.num,
+                       sum, num);
+        break;
+      }
+      case K_MAXER:
+      case K_MINER: {
+        ssize_t v = 12345;
+        bool got = kind == K_MAXER ? maxer->value(v) : miner->value(v);
+        if (got != has)
+          dsched::fail("private-exact", "thread %d, private %s %s: value(T&) returned %d, model says %s", thread, kind_name[kind], when, (int)got,
+                       has ? "a sample exists" : "no sample yet");
+        if (got && v != ext) dsched::fail("private-exact", "thread %d, private %s %s: extreme %ld, exact %ld", thread, kind_name[kind], when, (long)v, ext);
+        break;
+      }
+      case K_CETL: {
+        uint64_t total = 0;
+        const Cetl& cc = *cetl;
+        cc.for_each([&](const CellB& c) { total += c.count; });
+        if ((long)total != sum) dsched::fail("private-exact", "thread %d, private cetl %s: sum over for_each = %lu, exact total %ld", thread, when, (unsigned long)total, sum);
+        break;
+      }
+      default: break;
+    }
+  }
+};
+
+void churn_round(int me, const ChurnPlan& cp) {
+  World* w = W;
+  PrivateObj po;
+  po.kind = cp.kind;
+  uint64_t epoch0 = w->churn_dtor_epoch;
+  bool dtor_running0 = w->churn_dtor_in_flight > 0;
+  if (w->churn_alive > 0) w->churn_concurrent++;
+  dsched::point();
+  switch (cp.kind) {
+    case K_ADDER: po.adder.reset(new babylon::ConcurrentAdder()); break;
+    case K_SUMMER: po.summer.reset(new babylon::ConcurrentSummer()); break;
+    case K_MAXER: po.maxer.reset(new babylon::ConcurrentMaxer()); break;
+    case K_MINER: po.miner.reset(new babylon::ConcurrentMiner()); break;
+    case K_CETL: po.cetl.reset(new Cetl()); break;
+    default: break;
+  }
+  w->churn_alive++;
+  w->churn_rounds++;
+  dsched::point();
+  po.check("right after construction", me);  // starts from zero / "no sample" whatever storage it recycles
+  for (size_t i = 0; i < cp.values.size(); i++) {
+    dsched::point();
+    po.add(cp.values[i]);
+    po.model(cp.values[i]);
+    dsched::point();
+    po.check(i == 0 ? "after its first contribution" : "after a contribution", me);
+  }
+  if (dtor_running0 || w->churn_dtor_epoch != epoch0 || w->churn_dtor_in_flight > 0) w->churn_ctor_overlaps_dtor++;
+  if (cp.helper) {
+    // another thread contributes to the private object and exits: its slot keeps counting
+    long hv = cp.helper_value;
+    PrivateObj* ppo = &po;
+    std::thread h([ppo, hv] {
+      tl_harness_thread = 1000;
+      tl_id_a = -1;
+      dsched::point();
+      ppo->add(hv);
+    });
+    dsched::point();
+    po.add(cp.values[0]);  // the owner keeps contributing meanwhile
+    po.model(cp.values[0]);
+    h.join();
+    po.model(hv);
+    w->churn_helpers++;
+    po.check("after a helper thread contributed and exited", me);
+  }
+  dsched::point();
+  w->churn_dtor_in_flight++;
+  w->churn_dtor_epoch++;
+  po.adder.reset(); po.summer.reset(); po.maxer.reset(); po.miner.reset(); po.cetl.reset();
+  w->churn_dtor_in_flight--;
+  w->churn_dtor_epoch++;
+  w->churn_alive--;
+  dsched::point();
+}
+
 void worker(int harness_index, const ThreadPlan* plan) {
   World* w = W;
   tl_harness_thread = harness_index;
   tl_id_a = -1;
   for (auto& op : plan->ops) {
-    count_op(*w->objs[(size_t)op.obj], op.value);
+    if (op.churn >= 0) churn_round(harness_index, plan->churn[(size_t)op.churn]);
+    else count_op(*w->objs[(size_t)op.obj], op.value);
     dsched::point();
   }
   if (plan->park) {
@@ -661,6 +796,38 @@ void run_case(Chooser& c) {
       }
       dsched::describe("] ");
     }
+    // private instance churn rounds, inserted among the counting operations
+    {
+      static const Kind churn_kinds[] = {K_ADDER, K_SUMMER, K_MAXER, K_MINER, K_CETL};
+      Kind phase_kind = c.pick(churn_kinds);  // mostly one kind per phase: the churning threads share one storage / id allocator
+      for (int t = 0; t < nthreads; t++) {
+        ThreadPlan& tp = plans[(size_t)t];
+        int nchurn = (int)c.below(6);
+        if (nchurn > 4) nchurn = 2;
+        if (nchurn) dsched::describe("T%d+churn[", next_thread + t);
+        for (int r = 0; r < nchurn; r++) {
+          ChurnPlan cp;
+          cp.kind = c.chance(1, 4) ? c.pick(churn_kinds) : phase_kind;
+          int nv = c.range(1, 3);
+          for (int i = 0; i < nv; i++) {
+            long v = cp.kind == K_MAXER || cp.kind == K_MINER ? (long)c.range(0, 40) - 20 : (long)c.range(1, 9);
+            cp.values.push_back(v);
+          }
+          cp.helper = world.helper_budget > 0 && c.chance(1, 5);
+          cp.helper_value = cp.helper ? (long)c.range(1, 9) : 0;
+          if (cp.helper) world.helper_budget--;
+          tp.churn.push_back(cp);
+          OpPlan op;
+          op.obj = 0; op.value = 0; op.churn = r;
+          size_t pos = c.below((uint32_t)tp.ops.size() + 1);
+          tp.ops.insert(tp.ops.begin() + (long)pos, op);
+          dsched::describe("%s%s x%d%s", r ? "," : "", kind_name[cp.kind], nv, cp.helper ? "+helper" : "");
+          dsched::label(cp.kind == K_ADDER ? "churn_adder" : cp.kind == K_SUMMER ? "churn_summer" : cp.kind == K_MAXER ? "churn_maxer"
+                        : cp.kind == K_MINER ? "churn_miner" : "churn_cetl");
+        }
+        if (nchurn) dsched::describe("] ");
+      }
+    }
     int reader_rounds = with_reader ? c.range(1, 3) : 0;
     if (with_reader) dsched::describe("reader(%d) ", reader_rounds);
     std::vector<std::thread> threads;
@@ -713,9 +880,15 @@ void run_case(Chooser& c) {
         if (ci.owner == 0) ci.owner = -1;
     dsched::label("main_counts");
   }
+  if (world.churn_rounds) dsched::label_n("churn_rounds", (uint32_t)world.churn_rounds);
+  if (world.churn_concurrent) dsched::label_n("churn_lifetimes_overlapped", (uint32_t)world.churn_concurrent);
+  if (world.churn_ctor_overlaps_dtor) dsched::label_n("churn_ctor_overlaps_dtor", (uint32_t)world.churn_ctor_overlaps_dtor);
+  if (world.churn_helpers) dsched::label_n("churn_helper", (uint32_t)world.churn_helpers);
   if (world.id_reused) dsched::label("thread_id_reused");
   if (world.overlapping_reads) dsched::label("overlapping_read");
-  if ((world.thread_gens >= 2 && world.id_reused) || world.recycled > 0 || world.thread_gens >= 2) dsched::nontrivial();
+  if ((world.thread_gens >= 2 && world.id_reused) || world.recycled > 0 || world.thread_gens >= 2 || world.churn_ctor_overlaps_dtor > 0)
+    dsched::nontrivial();
+  dsched::mix_hash(world.churn_rounds * 7 + world.churn_ctor_overlaps_dtor * 131 + world.churn_concurrent);
   for (auto& o : world.objs) dsched::mix_hash((uint64_t)o->kind * 1000003ULL + (uint64_t)o->sum * 31 + o->num + (uint64_t)o->ext * 7 + o->cells.size());
   dsched::mix_hash(world.structural * 131 + world.thread_gens);
   world.objs.clear();
@@ -732,6 +905,8 @@ int main(int argc, char** argv) {
   t.property_id = "C19";
   t.run_case = run_case;
   t.tune = tune;
-  t.nontrivial_rule = "at least two thread generations (thread ids recycled) or an object constructed after a destroyed one (instance id / cell recycled)";
+  t.nontrivial_rule =
+      "at least two thread generations (thread ids recycled), or an object constructed after a destroyed one (instance id / cell recycled), "
+      "or a private object constructed while another thread's private object was being destroyed";
   return vf::main_driver(argc, argv, t);
 }
